@@ -122,8 +122,15 @@ def _inlinable_def(fn: ast.FunctionDef) -> bool:
     for n in ast.walk(fn):
         if isinstance(n, ast.Try) and any(isinstance(x, ast.Return) for s in n.finalbody for x in ast.walk(s)):
             return False
-        if isinstance(n, (ast.FunctionDef, ast.AsyncFunctionDef, ast.Lambda)) and n is not fn:
+        if isinstance(n, (ast.FunctionDef, ast.AsyncFunctionDef)) and n is not fn:
             return False
+        if isinstance(n, ast.Lambda):
+            # a lambda that is closed over nothing of the callee (its own parameters and globals only) moves with the body
+            own = {a_.arg for a_ in n.args.args + n.args.kwonlyargs} | {a_.arg for a_ in (n.args.vararg, n.args.kwarg) if a_}
+            local = _assigned_names(fn) | {a_.arg for a_ in fn.args.args + fn.args.kwonlyargs}
+            used = {x.id for x in ast.walk(n.body) if isinstance(x, ast.Name)}
+            if (used - own) & local or own & local:
+                return False
         # a return inside a loop of the callee would `break` that loop instead of the wrapper
         if isinstance(n, (ast.For, ast.While)) and any(isinstance(x, ast.Return) for s in n.body + n.orelse for x in ast.walk(s)):
             return False
@@ -1816,6 +1823,29 @@ def _rewrite_dict_dispatch(fn: ast.FunctionDef, dict_of) -> bool:
             if isinstance(st, ast.Try):
                 for h in st.handlers:
                     visit(h.body)
+            # the looked-up entry itself: `pair = TABLE[key]` / `return TABLE.get(key, default)`
+            if isinstance(st, (ast.Return, ast.Assign)) and getattr(st, "value", None) is not None and not (
+                    isinstance(st, ast.Assign) and not (len(st.targets) == 1 and isinstance(st.targets[0], ast.Name))):
+                lk0 = lookup(st.value)
+                if lk0 is not None and stable(lk0[1]) and not isinstance(lk0[1], ast.Constant):
+                    rows0, key0, default0 = lk0
+
+                    def entry(v):
+                        new_st = copy.deepcopy(st)
+                        new_st.value = copy.deepcopy(v)
+                        return ast.copy_location(new_st, st)
+                    if default0 is not None:
+                        tail0: List[ast.stmt] = [entry(default0)]
+                    else:
+                        tail0 = [ast.copy_location(ast.Raise(exc=ast.Call(func=ast.Name(id="KeyError", ctx=ast.Load()), args=[copy.deepcopy(key0)], keywords=[]), cause=None), st)]
+                    for k0, v0 in reversed(rows0):
+                        test0 = ast.Compare(left=copy.deepcopy(key0), ops=[ast.Eq()], comparators=[copy.deepcopy(k0)])
+                        tail0 = [ast.copy_location(ast.If(test=test0, body=[entry(v0)], orelse=tail0), st)]
+                    for x0 in tail0:
+                        ast.fix_missing_locations(x0)
+                    body[i:i + 1] = tail0
+                    changed[0] = True
+                    continue
             call = st.value if isinstance(st, (ast.Return, ast.Assign, ast.Expr)) and isinstance(getattr(st, "value", None), ast.Call) else None
             if call is None and isinstance(st, (ast.Return, ast.Assign)) and isinstance(getattr(st, "value", None), (ast.Tuple, ast.List)):
                 # the dispatched call as one element of a returned / assigned display: return (TABLE[k](x), k)
@@ -2327,9 +2357,15 @@ def _innermost(fn, node):
 
 
 def _calls(fn, name: str) -> bool:
+    """does fn call something named *name* that can be itself?  (a bare call, or a method call on a plain name / attribute
+    chain; `b64encode(data).decode()` -- a method of a call result -- is not the package's `decode`)"""
     for c in ast.walk(fn):
         if isinstance(c, ast.Call):
             f = c.func
-            if (isinstance(f, ast.Attribute) and f.attr == name) or (isinstance(f, ast.Name) and f.id == name):
+            if isinstance(f, ast.Name) and f.id == name:
+                return True
+            if isinstance(f, ast.Attribute) and f.attr == name and _plain_chain(f.value) and not (
+                    name in ("encode", "decode", "strip", "lower", "upper", "format", "get", "items", "keys", "values", "copy", "update")
+                    and not (isinstance(f.value, ast.Name) and fn.args.args and f.value.id == fn.args.args[0].arg)):
                 return True
     return False
